@@ -59,7 +59,7 @@ func callsIn(f *ssa.Function) []ssa.CallInstruction {
 func callsTo(f, g *ssa.Function) []ssa.CallInstruction {
 	var out []ssa.CallInstruction
 	for _, c := range callsIn(f) {
-		if c.Common().StaticCallee() == g {
+		if calleeOf(c.Common()) == g {
 			out = append(out, c)
 		}
 	}
@@ -579,7 +579,7 @@ func cellAliases(cell *ssa.Alloc) []ssa.Value {
 					}
 				}
 			case ssa.CallInstruction:
-				cal := x.Common().StaticCallee()
+				cal := calleeOf(x.Common())
 				if cal == nil || cal.Blocks == nil || curProg == nil || !curProg.InModule(cal) || x.Common().IsInvoke() {
 					continue
 				}
@@ -819,7 +819,7 @@ func (p *Prog) canonD(v ssa.Value, d int) string {
 // every return that is not a definite failure (decodeDependsLink returning the payload it decoded) is that value,
 // with the helper's parameters bound to the call's arguments.
 func (p *Prog) canonThroughHelper(cl *ssa.Call, idx int, d int) (string, bool) {
-	h := cl.Call.StaticCallee()
+	h := calleeOf(&cl.Call)
 	if h == nil || h.Blocks == nil || !p.InModule(h) || p.opaque[h] || d > 8 || len(p.callers[h]) > 4 {
 		return "", false
 	}
@@ -1098,7 +1098,7 @@ func funcValuesOf(v ssa.Value, d int) []*ssa.Function {
 	case *ssa.Function:
 		return []*ssa.Function{x}
 	case *ssa.Call:
-		cal := x.Call.StaticCallee()
+		cal := calleeOf(&x.Call)
 		if cal == nil || cal.Blocks == nil || curProg == nil || !curProg.InModule(cal) {
 			return nil
 		}
@@ -1126,6 +1126,7 @@ func funcValuesOf(v ssa.Value, d int) []*ssa.Function {
 type originVal struct {
 	V  ssa.Value
 	At ssa.Instruction
+	E  env // parameter bindings collected on the way (constructor / method call sites crossed): V is to be read under E
 }
 
 // fieldOrigins: v is a read of field i of a struct (load of &A.f, or Field(X,i)); returns every value that can have been
@@ -1133,7 +1134,7 @@ type originVal struct {
 // struct such as newItemSpec) or the result of a module constructor - the field of the composite literal built by each
 // caller / return. ok=false when some origin cannot be followed (escaping address, external call).
 func fieldOrigins(v ssa.Value, d int) ([]originVal, bool) {
-	if d > 6 {
+	if d > 14 {
 		return nil, false
 	}
 	switch x := strip(v).(type) {
@@ -1154,7 +1155,7 @@ func fieldOrigins(v ssa.Value, d int) ([]originVal, bool) {
 
 // fieldOfAddr: origins of field i of the struct stored at address base.
 func fieldOfAddr(base ssa.Value, i int, at ssa.Instruction, d int) ([]originVal, bool) {
-	if d > 6 {
+	if d > 14 {
 		return nil, false
 	}
 	al, ok := base.(*ssa.Alloc)
@@ -1172,7 +1173,7 @@ func fieldOfAddr(base ssa.Value, i int, at ssa.Instruction, d int) ([]originVal,
 		}
 		if cl, isCall := base.(*ssa.Call); isCall && curProg != nil {
 			// pointer returned by a module constructor (newPlanCompiler(...)): the struct it allocates
-			if cal := cl.Call.StaticCallee(); cal != nil && cal.Blocks != nil && curProg.InModule(cal) && cal.Signature.Results().Len() == 1 {
+			if cal := calleeOf(&cl.Call); cal != nil && cal.Blocks != nil && curProg.InModule(cal) && cal.Signature.Results().Len() == 1 {
 				var out []originVal
 				for _, r := range returnsOf(cal) {
 					rv := returnedValue(r, 0)
@@ -1233,7 +1234,7 @@ func fieldOfAddr(base ssa.Value, i int, at ssa.Instruction, d int) ([]originVal,
 					switch z := u.(type) {
 					case *ssa.Store:
 						if z.Addr == ssa.Value(y) {
-							out = append(out, originVal{z.Val, z})
+							out = append(out, originVal{V: z.Val, At: z})
 						}
 					case *ssa.UnOp, *ssa.DebugRef:
 					default:
@@ -1254,7 +1255,7 @@ func fieldOfAddr(base ssa.Value, i int, at ssa.Instruction, d int) ([]originVal,
 				out = append(out, sub...)
 			case *ssa.UnOp, *ssa.DebugRef, *ssa.MakeClosure, *ssa.Return, *ssa.Phi:
 			case ssa.CallInstruction:
-				cal := y.Common().StaticCallee()
+				cal := calleeOf(y.Common())
 				if cal == nil || curProg == nil || !curProg.InModule(cal) {
 					return nil, false // handed to code we do not see
 				}
@@ -1268,7 +1269,7 @@ func fieldOfAddr(base ssa.Value, i int, at ssa.Instruction, d int) ([]originVal,
 
 // fieldOfStructValue: origins of field i of the struct value w.
 func fieldOfStructValue(w ssa.Value, i int, at ssa.Instruction, d int) ([]originVal, bool) {
-	if d > 6 {
+	if d > 14 {
 		return nil, false
 	}
 	switch x := strip(w).(type) {
@@ -1311,7 +1312,7 @@ func fieldOfStructValue(w ssa.Value, i int, at ssa.Instruction, d int) ([]origin
 		}
 		return out, true
 	case *ssa.Call:
-		cal := x.Call.StaticCallee()
+		cal := calleeOf(&x.Call)
 		if cal == nil || cal.Blocks == nil || curProg == nil || !curProg.InModule(cal) {
 			return nil, false
 		}
@@ -1323,6 +1324,21 @@ func fieldOfStructValue(w ssa.Value, i int, at ssa.Instruction, d int) ([]origin
 			sub, ok := fieldOfStructValue(returnedValue(r, 0), i, r, d+1)
 			if !ok {
 				return nil, false
+			}
+			// values inside the constructor are expressed over its parameters: remember what this call binds them to
+			for k := range sub {
+				ne := env{}
+				for pk, pv := range sub[k].E {
+					ne[pk] = pv
+				}
+				for pi, prm := range cal.Params {
+					if pi < len(x.Call.Args) {
+						if _, bound := ne[prm]; !bound {
+							ne[prm] = x.Call.Args[pi]
+						}
+					}
+				}
+				sub[k].E = ne
 			}
 			out = append(out, sub...)
 		}
@@ -1340,4 +1356,12 @@ func isSentinelErrorVar(g *ssa.Global) bool {
 	}
 	n := g.Name()
 	return strings.HasPrefix(n, "Err") || strings.HasPrefix(n, "err")
+}
+
+// fieldOfStructValueOrAddr: origins of field i of base, which is either a struct value or the address of a struct.
+func fieldOfStructValueOrAddr(base ssa.Value, i int, at ssa.Instruction) ([]originVal, bool) {
+	if _, isPtr := base.Type().Underlying().(*types.Pointer); isPtr {
+		return fieldOfAddr(base, i, at, 0)
+	}
+	return fieldOfStructValue(base, i, at, 0)
 }
